@@ -77,6 +77,10 @@ struct Case {
 const NAME_STYLES: [&str; 3] = ["as-is", "two-dots", "blank-in-name"];
 const LINK_STYLES: [&str; 3] = ["regular files", "siblings are symlinks", "directory reached through a symlink"];
 
+fn rust_log_name(k: u64) -> &'static str {
+    ["(unset)", "debug", "trace"][k as usize % 3]
+}
+
 fn styled_start(start: &str, name_style: u64) -> String {
     let p = Path::new(start);
     let stem = p.file_stem().map(|s| s.to_string_lossy().to_string()).unwrap_or_default();
@@ -499,7 +503,7 @@ fn case_json(sets: &[InputSet], c: &Case) -> Value {
         "input_set": sets[c.input].name, "stage": sets[c.input].stage, "start_file": sets[c.input].start,
         "files": sets[c.input].files.iter().map(|(n, b)| json!({"name": n, "bytes": b.len(), "hash": format!("{:016x}", simkernel::hash_bytes(b))})).collect::<Vec<_>>(),
         "spelling": SPELLINGS[c.spelling as usize], "output": OUTPUTS[c.output as usize], "preexisting_output": PRE[c.pre as usize],
-        "extra_entries": EXTRAS[c.extra as usize], "stderr": if c.stderr_full { "/dev/full" } else { "pipe" }, "RUST_LOG": ["(unset)", "debug", "trace"][c.rust_log as usize % 3], "long_flags": c.longflags, "start_file_name": styled_start(&sets[c.input].start, c.name_style), "name_style": NAME_STYLES[c.name_style as usize], "link_style": LINK_STYLES[c.link_style as usize],
+        "extra_entries": EXTRAS[c.extra as usize], "stderr": if c.stderr_full { "/dev/full" } else { "pipe" }, "RUST_LOG": rust_log_name(c.rust_log), "long_flags": c.longflags, "start_file_name": styled_start(&sets[c.input].start, c.name_style), "name_style": NAME_STYLES[c.name_style as usize], "link_style": LINK_STYLES[c.link_style as usize],
         "entropy": format!("{:x}", c.entropy), "dirperm": c.dirperm,
         "fault": c.fault.as_ref().map(FaultSpec::describe),
     })
